@@ -125,7 +125,9 @@ def run(chk, facts, tier):
                 continue
             if name == 'free_write_queue':
                 st = [s for tgt, op, val, s in stores(fn.body) if is_name(tgt, 'current_client_')]
-                ok = len(st) == 1 and any(op == '==' and is_name(l, 'current_client_') and mentions(r, fn.params[0]['n']) for l, op, r in guard_atoms(fn, st[0]) if not isinstance(r, int))
+                allst = [s for tgt, op, val, s in stores(fn.body)]
+                owner = lambda x: any(op == '==' and ((is_name(l, 'current_client_') and mentions(r, fn.params[0]['n'])) or (is_name(r, 'current_client_') and mentions(l, fn.params[0]['n']))) for l, op, r in guard_atoms(fn, x) if not isinstance(r, int) and not isinstance(l, int))
+                ok = len(st) == 1 and all(owner(x) for x in allst)
             else:
                 pos = [r for r in fn.returns() if mentions(r, 'buffer_')]
                 ok = len(pos) == 1 and any(op == '==' and is_name(l, 'current_client_') and mentions(r, fn.params[0]['n']) for l, op, r in guard_atoms(fn, pos[0]) if not isinstance(r, int))
